@@ -688,12 +688,17 @@ func (g *gen) genTypes() {
 			}
 			s.Fields = append(s.Fields, fld)
 		}
+		// hidden fields anywhere in the struct: in front of, between and behind the visible ones
+		insertAt := func(f Field) {
+			at := g.r.Intn(len(s.Fields) + 1)
+			s.Fields = append(s.Fields[:at], append([]Field{f}, s.Fields[at:]...)...)
+		}
 		if prof.HiddenJSON && g.chance(0.4) {
-			s.Fields = append(s.Fields, Field{GoName: "Secret", Type: Prim("string"), JSONName: "-"})
+			insertAt(Field{GoName: "Secret", Type: Prim("string"), JSONName: "-"})
 			g.p.SetFeature("json-dash-field")
 		}
 		if prof.HiddenJSON && g.chance(0.4) {
-			s.Fields = append(s.Fields, Field{GoName: "internalNote", Type: Prim("string")})
+			insertAt(Field{GoName: "internalNote", Type: Prim("string")})
 			g.p.SetFeature("unexported-field")
 		}
 	}
@@ -1278,7 +1283,7 @@ func (g *gen) genMethod(c *Controller, idx int) Method {
 			} else {
 				pr.Wire = pr.GoName + "_q"
 				if prof.DashedWireNames && g.chance(0.4) {
-					pr.Wire = pr.GoName + "-q"
+					pr.Wire = pr.GoName + g.pick([]string{"-q", "-q", "&a", "<x>", "'s"})
 				}
 			}
 		}
